@@ -19,10 +19,13 @@ Qed.
 Theorem semantics_through_caches W c es s m :
   versioned W -> reach W c -> Forall W es ->
   forallb (fun e => e_ok e && validate (e_pol e)) es = true ->
-  forallb canonical (map e_pol es) = true ->
   resolve_decide c es s m = Some (spec_chain (map e_pol es) s m).
 Proof.
-  intros V R HW Hok Hc. rewrite (resolve_decide_pure W c es s m V R HW). unfold resolve_decide.
+  intros V R HW Hok.
+  assert (Hc : forallb levelled (map e_pol es) = true).
+  { apply forallb_forall. intros p Hp. apply in_map_iff in Hp as (e & <- & He).
+    apply validate_levelled. assert (H := proj1 (forallb_forall _ _) Hok e He).
+    apply andb_true_iff in H as [_ H]. exact H. } rewrite (resolve_decide_pure W c es s m V R HW). unfold resolve_decide.
   rewrite (compile_empty W V es HW). unfold compile_pure. rewrite (parse_all_ok es [] Hok). cbn [rev app].
   destruct (semantics _ Hc) as (a & -> & Sa). destruct (Sa m) as [_ Ch]. rewrite Ch. reflexivity.
 Qed.
